@@ -152,6 +152,17 @@ CHECKS['C10'] = dict(
     note='fixed set of 9 merchants; stddev(), by("week"), exact cv ties and number-vs-list readings of `payments` are not judged',
     design='§4 C10')
 
+CHECKS['C14'] = dict(
+    technique='TLA+ specs Regex.tla + Legacy.tla: CSV rule semantics (pattern search on the upper-cased description, amount/date/month '
+              'modifiers) and the intended conversion into the expression language; TLC checks MigrationPreserves (converted rule '
+              'evaluated by Expr!Eval matches exactly what the CSV rule matches) and exports CSV classifications; every rule file of the '
+              'universe goes through the legacy loop, csv_to_merchants_content + parse_merchants and load_csv_as_engine; Regex.tla is '
+              'validated against Python re; arbitrary patterns compared by match bit; the real tally up --migrate',
+    text='Exhaustive within bounds over pattern x modifier x profile rule files against 80 boundary transactions, three real pipelines '
+         'compared with the spec and with each other; random rules outside the regex fragment compared pipeline against pipeline.',
+    note='pattern meaning only inside the Regex.tla fragment; relative-date rules are a recorded known finding (KF-C14-1)',
+    design='§4 C14')
+
 NOT_YET = {}
 
 
